@@ -23,6 +23,23 @@ R2 == Branch(<<SetK("k", 6), SetN("n", "b", 4)>>, "fr", None, "")
 R3 == Branch(<<Inc("hits"), LApp(4)>>, "fr", 1, "")          \* a fill/request branch that raises LenaStopFill
 SRC == Branch(<<>>, "src", None, "")
 AllTemplates == {S1, S2, S3, S4, F1, F2, F3, F4, F5, R1, R2, R3, SRC}
+\* a typed Variable (context.variable has a sub-dictionary) followed or not by a write below context.variable:
+\* in the harness the Variable is ONE object used by every branch
+V1 == Branch(<<VarT("x", 7), SetV("mm")>>, "seq", None, "")
+V2 == Branch(<<VarT("x", 7)>>, "seq", None, "")
+V3 == Branch(<<VarT("x", 7), SetV("mm")>>, "store", None, "")
+V4 == Branch(<<VarT("x", 7), Inc("hits")>>, "store", None, "")
+V5 == Branch(<<VarT("x", 7), SetV("mm")>>, "fr", None, "")
+V6 == Branch(<<VarT("x", 7)>>, "fr", None, "")
+VarTemplates == {V1, V2, V3, V4, V5, V6}
+\* branches that touch the data only (for flow values that are bare objects without context)
+D1 == Branch(<<App(1)>>, "seq", None, "")
+D2 == Branch(<<>>, "seq", None, "")
+D3 == Branch(<<App(2)>>, "store", None, "")
+D4 == Branch(<<>>, "store", None, "")
+D5 == Branch(<<App(3)>>, "fr", None, "")
+D6 == Branch(<<>>, "fr", None, "")
+DataTemplates == {D1, D2, D3, D4, D5, D6}
 FewTemplates == {S1, S3, S4, F1, F3, R1, SRC}
 FillFew == {F1, F3, F5, R1, R2}
 
@@ -33,6 +50,14 @@ X(j) == [d |-> <<j>>,
                  [] j % 3 = 2 -> <<>>
                  [] OTHER -> [a |-> 2]]
 Flow(n) == [j \in 1..n |-> X(j)]
+\* the shape of the flow values: "pair" ([j], context); "objpair" (object, context); bare data without
+\* context: "obj" a user object with attributes, "tuple" / "ntuple" a (named) tuple of such objects - these
+\* are hashable although mutable.  The data cell of the model is the mutable part (see Heap.tla).
+BareShapes == {"obj", "tuple", "ntuple"}
+AllShapes == {"pair", "objpair"} \cup BareShapes
+QuickShapes == {"pair", "obj", "tuple"}
+XS(j, shape) == IF shape \in BareShapes THEN [d |-> <<j>>, c |-> <<>>] ELSE X(j)
+FlowS(n, shape) == [j \in 1..n |-> XS(j, shape)]
 
 BufAll == {1, 2, None}
 IsFC(b) == b.end \in {"store", "count"}
